@@ -1,5 +1,6 @@
 """C01 - file-name matching follows the documented wildcard language."""
 import json
+import re
 import corr
 import astgen
 from wclib import import_impl, seeded_rng
@@ -123,6 +124,64 @@ def run(ctx):
                         names_[k_], pat_, corr.flag_names(fl_), got[k_], gotb[k_]), {'name': names_[k_], 'pattern': pat_, 'flags': corr.flag_names(fl_)})
                     break
     ctx.counted('escaped members of bracket expressions', nesc, nesc // 3, [{'pattern': '[a\\/]', 'name': '/'}])
+    # bracket expressions assembled from single members and ranges whose end points may be written as escapes; a hyphen is
+    # written right after a range (where it cannot start another one) or last: the set is known by construction
+    nbr_ = 0
+    nbr_bad = 0
+    specials = set('\\]-^![')
+    pool = 'Aa0+z\\]-^!.Z9_/'
+
+    def wr(c_):
+        return '\\' + c_ if (c_ in specials or rng.random() < 0.25) else c_
+    for _ in range(1500 if ctx.quick else 20000):
+        items, text, members = rng.randint(1, 4), '', set()
+        prev_range = False
+        for k_ in range(items):
+            r_ = rng.random()
+            if r_ < 0.5:
+                lo, hi = sorted((rng.choice(pool), rng.choice(pool)))
+                if lo == '/' or hi == '/':
+                    continue
+                text += wr(lo) + '-' + wr(hi)
+                members |= set(chr(o) for o in range(ord(lo), ord(hi) + 1))
+                prev_range = True
+                if rng.random() < 0.5:
+                    text += '-'          # literal: a range has just ended
+                    members.add('-')
+                    prev_range = False
+            else:
+                c_ = rng.choice(pool)
+                if c_ == '/' or (c_ == '-' and not prev_range and text):
+                    continue
+                text += ('\\' + c_) if c_ in specials else wr(c_)
+                members.add(c_)
+                prev_range = False
+        if not text:
+            continue
+        neg = rng.random() < 0.3
+        pat_ = '[' + ('!' if neg else '') + text + ']'
+        names_ = [chr(o) for o in range(33, 127)]
+        want = [(n_ in members) != neg for n_ in names_]
+        for fl_ in (Fm.FORCEUNIX | Fm.DOTMATCH, Fm.FORCEUNIX | Fm.DOTMATCH | Fm.EXTMATCH):
+            nbr_ += len(names_)
+            try:
+                cm_ = Fm.compile(pat_, flags=fl_)
+                got = [cm_.match(n_) for n_ in names_]
+                gotb = [Fm.fnmatch(n_.encode(), pat_.encode(), flags=fl_) for n_ in names_]
+                re.compile(Fm.translate(pat_, flags=fl_)[0][0])
+            except Exception as ex_:
+                if nbr_bad < 3:
+                    nbr_bad += 1
+                    ctx.counterexample('fnmatch.compile/translate(%r, %s) raises %s: %s' % (pat_, corr.flag_names(fl_), type(ex_).__name__, ex_), {'pattern': pat_, 'flags': corr.flag_names(fl_)})
+                break
+            if (got != want or gotb != want) and nbr_bad < 3:
+                nbr_bad += 1
+                k_ = next(i for i in range(len(want)) if got[i] != want[i] or gotb[i] != want[i])
+                ctx.counterexample('fnmatch(%r, %r, %s) = %r (bytes %r) but the set written is %s%r' % (
+                    names_[k_], pat_, corr.flag_names(fl_), got[k_], gotb[k_], 'the complement of ' if neg else '', ''.join(sorted(members))),
+                    {'name': names_[k_], 'pattern': pat_, 'flags': corr.flag_names(fl_), 'members': ''.join(sorted(members)), 'negated': neg})
+                break
+    ctx.counted('bracket expressions with escaped range end points', nbr_, nbr_ // 3, [{'pattern': '[A-\\\\-+]', 'members': 'A..\\ - +'}])
     hits, rest = common.attribute(
         ctx, mism, classifiers(),
         lambda m: 'fnmatch %s(%r, %r, %s) = %r but the documented language says %s' % (
